@@ -39,6 +39,9 @@ func VH_C03_NoLockLeftHeldAfterFault() {
 	vLocksHeld = 0
 	c03Contained(handlers[k], e.cc, &t)
 	vAssert("no_shared_lock_left_held_after_hostile_request", vLocksHeld == 0)
+	// whatever the request started in the background runs outside the connection's recover: a fault there ends the
+	// whole process, so it must not fault (reported as an uncaught panic)
+	vRunSpawned()
 	// and a well-behaved client is still served
 	t2 := hotline.NewTransaction(hotline.TranGetUserNameList, e.other.ID)
 	res := HandleGetUserNameList(e.other, &t2)
